@@ -27,6 +27,7 @@ type c10Finding struct {
 	Sig     string
 	What    string
 	Section int
+	Apt     string // rtx-apt-not-listed: the apt value
 }
 
 func c10FirstToken(v string) string {
@@ -103,6 +104,7 @@ func c10CheckSection(idx int, m *kit.SDPMedia) (fs []c10Finding, nontrivial bool
 				apt := strings.TrimSpace(v)
 				if listed[apt] == 0 {
 					add("rtx-apt-not-listed", "rtx payload type %s has apt=%s, which the m= line does not list", rm.PT, apt)
+					fs[len(fs)-1].Apt = apt
 				}
 			}
 		}
@@ -535,6 +537,10 @@ type c10Case struct {
 	userPrefs map[*RTPTransceiver]string
 	// the remote offer maps one extension URI to different ids in different sections (not BUNDLE-consistent)
 	inconsistent bool
+	// accepted preference lists (as passed, local numbering) of the transceivers created locally
+	prefLists map[*RTPTransceiver][]RTPCodecParameters
+	// answerer to an offer whose numbering is derived from the local one (c10_corr_test.go): numbering mode, "" otherwise
+	corrMode string
 }
 
 func (c *c10Case) step(op, detail string, err error) {
@@ -581,6 +587,31 @@ func (c *c10Case) dupCause(m *kit.SDPMedia) string {
 	}
 
 	return ""
+}
+
+// aptRemoteUse reports (as a signature suffix) whether the remote offer's section with the same mid lists the payload type
+// number that a generated rtx names as apt without listing it.
+func (c *c10Case) aptRemoteUse(m *kit.SDPMedia, apt string) string {
+	if c.remot == "" {
+		return ""
+	}
+	rd, err := kit.ParseSDP(c.remot)
+	if err != nil {
+		return ""
+	}
+	mid, _ := m.Mid()
+	for _, rm := range rd.Media {
+		if rmid, _ := rm.Mid(); rmid != mid {
+			continue
+		}
+		for _, f := range rm.Formats {
+			if f == apt {
+				return ":apt-number-listed-by-remote"
+			}
+		}
+	}
+
+	return ":apt-number-not-listed-by-remote"
 }
 
 func (c *c10Case) check(what string, sd SessionDescription) {
@@ -631,12 +662,17 @@ func (c *c10Case) check(what string, sd SessionDescription) {
 			if f.Sig == "duplicate-pt-in-mline" {
 				f.Sig += c.dupCause(m)
 			}
+			if f.Sig == "rtx-apt-not-listed" {
+				// scenario class from facts: where the section's codec list comes from, and whether the remote description
+				// uses the dangling apt number itself (for whatever codec) in the section of the same mid
+				f.Sig += c.dupCause(m) + c.aptRemoteUse(m, f.Apt)
+			}
 			if c.inconsistent && strings.HasPrefix(f.Sig, "extmap-") {
 				f.Sig += ":remote-extmap-inconsistent"
 			}
 			c.run.Violation(f.Sig, fmt.Sprintf("%s as %s (prefs=%v): %s", what, c.role, c.prefs, f.What), c.idx, map[string]any{
 				"generated_by": what, "role": c.role, "engine": c.spec.String(), "steps": c.steps, "section": m.Lines,
-				"remote_offer": c.remot, "finding": f.What, "prefs_with_pt0": c.pt0Prefs, "engine_has_unattached_rtx": c.spec.hasUnattachedRTX(m.Kind),
+				"remote_offer": c.remot, "remote_numbering": c.corrMode, "finding": f.What, "prefs_with_pt0": c.pt0Prefs, "engine_has_unattached_rtx": c.spec.hasUnattachedRTX(m.Kind),
 			})
 		}
 	}
@@ -662,6 +698,7 @@ func (c *c10Case) addTransceivers(pc *PeerConnection, max int) {
 		if c.r.Chance(0.6) {
 			prefs, class := c10GenPrefs(c.r, c.spec.kind(ks))
 			ps := c10PrefsString(prefs) // before the call: SetCodecPreferences may reorder the caller's slice
+			passed := append([]RTPCodecParameters{}, prefs...)
 			err = tr.SetCodecPreferences(prefs)
 			c.step("SetCodecPreferences", class+" ["+ps+"]", err)
 			if err != nil {
@@ -670,6 +707,7 @@ func (c *c10Case) addTransceivers(pc *PeerConnection, max int) {
 				c.prefs = true
 				c.pt0Prefs = c.pt0Prefs || strings.Contains(class, "pt0")
 				c.userPrefs[tr] = class
+				c.prefLists[tr] = passed
 				c.run.Seen("prefs_class", class)
 			}
 		}
@@ -697,8 +735,11 @@ func (c *c10Case) asOfferer() {
 	c.check("CreateOffer", offer)
 }
 
-func (c *c10Case) asAnswerer() { //nolint:cyclop
+func (c *c10Case) asAnswerer(correlated bool) { //nolint:cyclop
 	c.role = "answerer"
+	if correlated {
+		c.role = "answerer-correlated"
+	}
 	pc, err := rigNewPC(rigOpts{ME: c10Build(c.spec, c.run), Quiet: true})
 	if err != nil {
 		c.run.Inconclusive("new-peerconnection: " + err.Error())
@@ -707,13 +748,23 @@ func (c *c10Case) asAnswerer() { //nolint:cyclop
 	}
 	defer rigClose(pc)
 	c.pc = pc
-	if c.r.Chance(0.5) {
-		c.addTransceivers(pc, 3) // pre-existing local transceivers (with preferences in local numbering)
+	var g *genSDP
+	var tables map[string][]c10RemoteEntry
+	if correlated {
+		if c.r.Chance(0.85) {
+			c.addTransceivers(pc, 3)
+		}
+		g, c.corrMode, tables = c10GenCorrelatedOffer(c.r, c.spec)
+		c.run.Seen("corr_numbering", c.corrMode)
+	} else {
+		if c.r.Chance(0.5) {
+			c.addTransceivers(pc, 3) // pre-existing local transceivers (with preferences in local numbering)
+		}
+		g = genRandomOffer(c.r, genOpts{
+			MaxSections: 4, Kinds: []string{"audio", "video", "video", "application"}, MidStyle: 0,
+			PTRemap: true, PTPerSection: c.r.Chance(0.3), ExtPermute: true, Dirs: []string{"sendrecv", "sendonly", "recvonly"},
+		})
 	}
-	g := genRandomOffer(c.r, genOpts{
-		MaxSections: 4, Kinds: []string{"audio", "video", "video", "application"}, MidStyle: 0,
-		PTRemap: true, PTPerSection: c.r.Chance(0.3), ExtPermute: true, Dirs: []string{"sendrecv", "sendonly", "recvonly"},
-	})
 	if kit.Tier() == "thorough" && c.r.Chance(0.15) {
 		// BUNDLE-inconsistent class (thorough only, own signature suffix): the same URI gets different ids in different sections
 		for _, m := range g.Media {
@@ -733,6 +784,18 @@ func (c *c10Case) asAnswerer() { //nolint:cyclop
 		c.run.Seen("set_remote_errors", c10ErrClass(err))
 
 		return
+	}
+	if correlated {
+		// how the local preferences of the transceivers that were matched to a remote section relate to the remote numbering
+		for _, tr := range pc.GetTransceivers() {
+			if prefs := c.prefLists[tr]; len(prefs) > 0 && tr.Mid() != "" {
+				if class := c10ClashClass(prefs, tables[tr.Kind().String()]); class != "" {
+					c.run.Count("corr_matched_prefs_"+class, 1)
+				} else {
+					c.run.Count("corr_matched_prefs_no-clash", 1)
+				}
+			}
+		}
 	}
 	// preferences on transceivers created from the remote offer
 	if c.r.Chance(0.3) {
@@ -798,15 +861,17 @@ func c10ErrClass(err error) string {
 
 func TestVerifC10(t *testing.T) {
 	run := kit.Start(t, "C10", "case = random MediaEngine (1-12 RegisterCodec per kind, PTs 0..127, rtx with/without primary, flexfec-03, 0-18 "+
-		"RegisterHeaderExtension with direction restrictions) x random transceivers/SetCodecPreferences (subset, reorder, PT 0), half as offerer "+
-		"(CreateOffer) and half as answerer to generated foreign offers with remapped PTs / permuted extmap ids (CreateAnswer, then CreateOffer); "+
+		"RegisterHeaderExtension with direction restrictions) x random transceivers/SetCodecPreferences (subset, reorder, PT 0), a third as offerer "+
+		"(CreateOffer), a third as answerer to generated foreign offers with independently remapped PTs / permuted extmap ids, a third as answerer to "+
+		"offers whose codec table is derived from the local registration (subset of the local codecs + foreign ones; numbers same / permutation of the "+
+		"local number set / mixed / disjoint, so a local number can mean another codec remotely; rtx attached or dangling) (CreateAnswer, then CreateOffer); "+
 		"non-trivial when some generated section lists >= 2 payload types and has >= 1 rtx or extmap; distinct by the m= lines + extmap lines produced")
 	defer run.Finish()
 	run.Assume("kit.ParseSDP line splitter is the trusted base; SDP text is what CreateOffer/CreateAnswer return (before SetLocalDescription)")
 
-	n := kit.N(1000, 30000)
+	n := kit.N(3000, 30000)
 	run.Parallel(n, 16, func(i int) {
-		c := &c10Case{run: run, idx: i, r: run.CaseRand(i), userPrefs: map[*RTPTransceiver]string{}}
+		c := &c10Case{run: run, idx: i, r: run.CaseRand(i), userPrefs: map[*RTPTransceiver]string{}, prefLists: map[*RTPTransceiver][]RTPCodecParameters{}}
 		c.spec = c10GenEngine(c.r)
 		defer func() {
 			if p := recover(); p != nil {
@@ -815,10 +880,13 @@ func TestVerifC10(t *testing.T) {
 				run.Inconclusive(fmt.Sprintf("panic:%s: %v", c.role, p))
 			}
 		}()
-		if c.r.Bool() {
+		switch c.r.Intn(3) {
+		case 0:
 			c.asOfferer()
-		} else {
-			c.asAnswerer()
+		case 1:
+			c.asAnswerer(false)
+		default:
+			c.asAnswerer(true)
 		}
 		run.Case(c.role+"|"+strings.Join(c.descs, "||"), c.nontr)
 		run.Seen("role", fmt.Sprintf("%s prefs=%v", c.role, c.prefs))
